@@ -32,7 +32,7 @@ IndInv ==
 IndInit ==
   /\ nread = Gen(1) /\ io = Gen(1) /\ board = Gen(1) /\ table = Gen(3) /\ flagOver = Gen(1) /\ left = Gen(1)
   /\ chan = Gen(4) /\ best = Gen(1) /\ srch = Gen(1) /\ root = Gen(1) /\ sent = Gen(1) /\ started = Gen(1)
-  /\ pending = Gen(1) /\ out = Gen(3) /\ nextId = Gen(1) /\ ngo = Gen(1)
+  /\ pending = Gen(1) /\ out = Gen(3) /\ nextId = Gen(1) /\ ngo = Gen(1) /\ orphan = Gen(1)
   /\ IndInv
 
 \* what the invariant is for
